@@ -391,7 +391,7 @@ def specs_shared_window(ctx, n):
     return out
 
 
-def specs_submit_fault(ctx, kinds, seeds=2):
+def specs_submit_fault(ctx, kinds, seeds=2, nths=(1, 2, 3)):
     """The pool behind a stage cannot start another worker thread: the n-th submit to the request
     stage (or, for downloads, to the IO stage) raises what ThreadPoolExecutor.submit raises.  The
     transfer fails; everything already handed out must still be waited for before done is announced.
@@ -399,10 +399,10 @@ def specs_submit_fault(ctx, kinds, seeds=2):
     rng = ctx.rng('specs', 'submit-fault')
     out = []
     for k in kinds:
-        for ex, nths in ((0, (1, 2, 3)), (2, (1, 2))):
+        for ex, ns in ((0, nths), (2, (1, 2))):
             if ex == 2 and k['kind'] != 'download':
                 continue
-            for nth in nths:
+            for nth in ns:
                 for _ in range(seeds):
                     out.append(dict(transfers=[dict(k)], submit_fault=dict(executor=ex, nth=nth), submit_yield=bool(rng.randrange(2)),
                                     cfg=dict(max_request_concurrency=rng.choice([1, 2, 3])),
